@@ -605,8 +605,11 @@ def run_sets(inp):
     fresh0 = aa.Inversion(dataset=ds, linear_obj_list=objs, settings=settings(), preloads=aa.Preloads(use_w_tilde=pre_use_wt))
     bad = [q for q, a, b in zip(inp["reads0_after"], after0, [observe(fresh0, q) for q in inp["reads0_after"]]) if not same(a, b)]
     if bad and not why: why = f"fit_0.inversion attributes read after set_*: {bad} differ from a fresh inversion"
+    # (a data_vector_mapper that fit_0's inversion itself had been given as a preload is the same array: the w-tilde class with a
+    #  function object completes it in place, which leaves it a valid preload -- C15_store_stays_consistent)
+    allowed0 = {"data_vector_mapper"} if (wt0 and has_f and "data_vector_mapper" in inp["chain"]) else set()
     for s, v in filled.items():
-        if fingerprint(v) != fps[s] and not why: why = f"preloaded {s} changed when fit_0.inversion was read after set_*"
+        if fingerprint(v) != fps[s] and s not in allowed0 and not why: why = f"preloaded {s} changed when fit_0.inversion was read after set_*"
     wt_later = wt_chosen(inp, pre.use_w_tilde)
     allowed = {"data_vector_mapper"} if (wt_later and has_f) else set()
     n = 0
